@@ -62,6 +62,11 @@ m('c07-r5-default-difficulty', 'C07', 'C07-R5', 'catch:difficulty', (
 m('c07-r5-swapped-results', 'C07', 'C07-R5', 'catch:', (
     'src/catch/performance/mod.rs', "            fruits: n300,\n            droplets: n100,", "            fruits: n100,\n            droplets: n300,"))
 
+m('c02-r2-gradual-hr-offsets', 'C02', 'C02-R2', 'catch:-get_hardrock_offsets', (
+    'src/catch/difficulty/gradual.rs', "        let hr_offsets = difficulty.get_hardrock_offsets();", "        let hr_offsets = difficulty.get_mods().hr();"))
+m('c16-r5-strains-extra-setting', 'C16', 'C16-R5', 'mania:settings', (
+    'src/mania/strains.rs', "    let values = DifficultyValues::calculate(difficulty, &map);", "    let _scale = if difficulty.get_lazer() { 1.0 } else { 1.0 };\n    let values = DifficultyValues::calculate(difficulty, &map);"))
+
 # ---- C03 / C04 ----------------------------------------------------------------------------------------------
 m('c03-r2-drop-state', 'C03', 'C03-R2', 'taiko:nth:state', (
     'src/taiko/performance/gradual.rs', "            .state(state)\n", "            .state(TaikoScoreState { misses: state.misses, ..Default::default() })\n"))
